@@ -350,9 +350,45 @@ v_aligned_free(ZixAllocator* al, void* ptr)
   v_free_common((VAlloc*)al, ptr, true);
 }
 
+#ifdef V_GUARD_DEFAULT
+/* C08 guard: the harness always supplies its own allocator, so any use of the default allocator by
+   a zix function (zix_malloc(NULL, ...), zix_aligned_free(NULL, ...)) is a discipline violation.
+   src/allocator.c is compiled with -Dzix_default_allocator=real_zix_default_allocator. */
+ZixAllocator* real_zix_default_allocator(void);
+static long v_default_allocator_uses;
+static int  v_guard_armed;
+
+ZixAllocator*
+zix_default_allocator(void)
+{
+  if (v_guard_armed) {
+    ++v_default_allocator_uses;
+    fflush(stdout);
+    fprintf(stderr, "C08: the default allocator was used although the caller supplied an allocator\n");
+    abort();
+  }
+  return real_zix_default_allocator();
+}
+
+// Direct libc allocation from a zix source file (compiled with -Dmalloc=v_forbidden_malloc ...)
+void* v_forbidden_malloc(size_t n);
+void* v_forbidden_calloc(size_t n, size_t m);
+void* v_forbidden_realloc(void* p, size_t n);
+void  v_forbidden_free(void* p);
+int   v_forbidden_posix_memalign(void** p, size_t a, size_t n);
+void* v_forbidden_malloc(size_t n) { (void)n; fprintf(stderr, "C08: malloc() called directly by a zix source\n"); abort(); }
+void* v_forbidden_calloc(size_t n, size_t m) { (void)n; (void)m; fprintf(stderr, "C08: calloc() called directly by a zix source\n"); abort(); }
+void* v_forbidden_realloc(void* p, size_t n) { (void)p; (void)n; fprintf(stderr, "C08: realloc() called directly by a zix source\n"); abort(); }
+void  v_forbidden_free(void* p) { (void)p; fprintf(stderr, "C08: free() called directly by a zix source\n"); abort(); }
+int   v_forbidden_posix_memalign(void** p, size_t a, size_t n) { (void)p; (void)a; (void)n; fprintf(stderr, "C08: posix_memalign() called directly by a zix source\n"); abort(); }
+#endif
+
 static void
 v_alloc_init(VAlloc* a)
 {
+#ifdef V_GUARD_DEFAULT
+  v_guard_armed = 1;
+#endif
   memset(a, 0, sizeof(*a));
   a->base.malloc        = v_malloc;
   a->base.calloc        = v_calloc;
